@@ -635,6 +635,36 @@ def check_expr_prod(rep: Report, ix):
     rep.floor("special cases of expr_prod", n, 3)
 
 
+
+def check_operator_tables_per_variable(rep: Report, ix):
+    """_add_operators_to_expr fills the operator dictionary it receives with entries chosen by the *variable's* boundary
+    conditions (`var:op` lookup) and skips names that are already present; every equation of a multi-field PDE must
+    therefore get its own copy of the general table -- with one shared dictionary a later equation silently re-uses the
+    operator (and boundary conditions) an earlier equation created, so the compiled rate differs from the interpreted one"""
+    f = ix.func("pde/pdes/pde.py", "PDE._prepare_cache")
+    rep.saw("functions", f.ref)
+    calls = [c for c in ast.walk(f.node) if isinstance(c, ast.Call) and isinstance(c.func, ast.Attribute) and c.func.attr == "_compile_rhs_single"]
+    if not calls:
+        raise AnalysisError(f"{f.ref}: call of _compile_rhs_single vanished")
+    callee = ix.func("pde/pdes/pde.py", "PDE._compile_rhs_single")
+    params = [a.arg for a in callee.node.args.args][1:]
+    if "ops" not in params:
+        raise AnalysisError(f"{callee.ref}: parameter `ops` vanished")
+    pos = params.index("ops")
+    for k, c in enumerate(calls):
+        arg = c.args[pos] if len(c.args) > pos else next((kw.value for kw in c.keywords if kw.arg == "ops"), None)
+        fresh = isinstance(arg, ast.Call) and ((isinstance(arg.func, ast.Attribute) and arg.func.attr == "copy") or dotted(arg.func) in ("dict", "copy.copy", "copy.deepcopy")) or (isinstance(arg, ast.Dict))
+        rep.oblige(f"PDE._prepare_cache: call {k} hands each variable its own copy of the operator table", bool(fresh), ast.unparse(arg) if arg is not None else None)
+        if not fresh:
+            rep.violation(
+                "C10.shared-operator-table",
+                f"{f.ref}::ops",
+                f"`{ast.unparse(c)[:90]}` hands the same dictionary `{ast.unparse(arg) if arg is not None else None}` to every variable: operators are entered under their name only and existing names are skipped, "
+                "so a later equation uses the operator built with an earlier variable's boundary conditions",
+                line=c.lineno,
+            )
+
+
 def check(tier: str) -> Report:
     rep = Report("C10", tier, "proof", "abstract interpretation of evolution_rate / make_evolution_rate into an affine-operator term language; normal-form identity; grammar-based parsing of the advertised expression text")
     rep.explanation = (
@@ -681,6 +711,7 @@ def check(tier: str) -> Report:
     check_expression_pde(rep, ix)
     check_rate_purity(rep, ix)
     check_expr_prod(rep, ix)
+    check_operator_tables_per_variable(rep, ix)
     rep.assumptions += [
         "operators with boundary conditions are affine maps; Lin depends on (operator, bc), the inhomogeneity on (operator, bc, t)",
         "parameters are generic (not 0, +-1) in the class-by-class comparison; the special cases of expr_prod are decided separately (exact guards, exact texts); `{factor:g}` keeps six significant digits",
